@@ -7,7 +7,7 @@
    order, return to the caller with SP and code intact, JP 0 ends halted at FF03, warnings for other ports) is checked on
    the REAL tinycpm memory + IO under CPU.Run with generated programs (checks/c18.py); tinycpm.IO is exercised there,
    not translated. *)
-From Z80V Require Import Cpm.Bios Proofs.Interrupt.
+From Z80V Require Import Cpm.Bios Proofs.Interrupt Cpm.Programs Proofs.Iter Gen.TinyData.
 
 Theorem C18_tie : forall cpu, WF cpu -> Step cpu = spec_step impl_unspec cpu.
 Proof. exact Step_ok. Qed.
@@ -32,3 +32,50 @@ Print Assumptions C18_bdos_disassembly.
 Theorem C18_nothing_else_preloaded : forall a, 0 <= a < 65536 -> image_at a <> 0 -> (0 <= a < 8) \/ (65030 <= a < 65053) \/ a = 65283.
 Proof. exact image_support. Qed.
 Print Assumptions C18_nothing_else_preloaded.
+
+(* ---- the two services as PROGRAMS run by the generated Step (iter n = n calls of Step) ----
+   c0: any well-formed state that uses the user's memory and an IO device, no request pending, whose memory holds the
+   page-0 vector JP FE06h at 0005h and the BDOS bytes of the real image at FE06h..FE1Ch (bdos_loaded; everything else in
+   memory, all other registers, the stack contents are arbitrary), entered at 0005h as by CALL 5.
+   rel c0 c' outs v: c' still has that environment, memory is unchanged, the port writes since c0 are exactly outs
+   (newest first), and c' shows the registers v = (A, F, C, DE, E, SP, PC). *)
+Theorem C18_putchar : forall c0 a f de ch sp, WF c0 -> env_ok c0 -> bdos_loaded (ram (g_W c0)) ->
+  view c0 = mk_mach a f 2 de ch sp 5 ->
+  rel c0 (iter 7 c0) [(0, ch)]
+      (mk_mach ch (cp8 2 2) 2 de ch (u16 (u16 (sp + 1) + 1)) (popped (ram (g_W c0)) sp)).
+Proof. intros c0 a f de ch sp H He Hl Hv. rewrite iter_ok by exact H. exact (putchar impl_unspec c0 He Hl a f de ch sp Hv). Qed.
+Print Assumptions C18_putchar.
+(* any string length: 6 Steps to the loop, 6 per character, 3 for the terminator *)
+Theorem C18_putstr : forall c0 a f d e sp (s : list Z), WF c0 -> env_ok c0 -> bdos_loaded (ram (g_W c0)) ->
+  view c0 = mk_mach a f 9 d e sp 5 -> is16 d ->
+  (forall k, (k < length s)%nat -> u8 (ram (g_W c0) (u16 (d + Z.of_nat k))) = nth k s 0) ->
+  Forall (fun c => is8 c /\ c <> 36) s ->
+  u8 (ram (g_W c0) (u16 (d + Z.of_nat (length s)))) = 36 ->
+  exists e', rel c0 (iter (6 + 6 * length s + 3) c0) (rev (map (fun c => (0, c)) s))
+               (mk_mach 36 (cp8 36 36) 9 (u16 (d + Z.of_nat (length s))) e' (u16 (u16 (sp + 1) + 1)) (popped (ram (g_W c0)) sp)).
+Proof.
+  intros c0 a f d e sp s H He Hl Hv Hd Hs Hok Hend. rewrite iter_ok by exact H.
+  exact (putstr impl_unspec c0 He Hl a f d e sp s Hv Hd Hs Hok Hend).
+Qed.
+Print Assumptions C18_putstr.
+(* the return address is the word on the stack (what CALL 5 pushed), SP is back above it *)
+Theorem C18_return_address : forall r sp, popped r sp = mk16 (u8 (r (u16 (sp + 1)))) (u8 (r sp)).
+Proof. reflexivity. Qed.
+(* the premises are satisfiable: the real image with a two-character string *)
+Definition cpm_demo : CPU :=
+  s_IO (s_W (s_SP (s_PC (s_DE (s_BC cpu0 (mk_Register 0 9)) (wreg 512)) 5) 61440)
+            (mk_World (fun a => if a =? 512 then 72 else if a =? 513 then 105 else if a =? 514 then 36 else image_at a) [] [])) true.
+Example C18_premises_hold :
+  WF cpm_demo /\ env_ok cpm_demo /\ bdos_loaded (ram (g_W cpm_demo)) /\ view cpm_demo = mk_mach 0 0 9 512 0 61440 5.
+Proof.
+  split; [|split; [|split]].
+  - cbv [WF WF_gpr WF_reg WF_mem WF_irq cpm_demo cpu0 wreg hi lo]; cbv_struct; unfold is8, is16; repeat split; try lia; vm_compute; intuition discriminate.
+  - repeat split.
+  - unfold bdos_loaded, cpm_demo. cbv_struct. repeat split; try (vm_compute; reflexivity).
+    intros a Ha. destruct (Z.eqb_spec a 512); [lia|]. destruct (Z.eqb_spec a 513); [lia|]. destruct (Z.eqb_spec a 514); [lia|].
+    apply u8_id. unfold image_at. destruct (find _ bios_image) as [p|] eqn:E; [|lia].
+    apply find_some in E. destruct E as [Hin _].
+    assert (F : forallb (fun p => (0 <=? snd p) && (snd p <? 256)) bios_image = true) by (vm_compute; reflexivity).
+    rewrite forallb_forall in F. specialize (F p Hin). lia.
+  - vm_compute. reflexivity.
+Qed.
